@@ -53,12 +53,18 @@ finding(["C19","C13","C03","C08"], "O8", "tensor.(*Dense).ShallowClone#store1",
         "ShallowClone shares old (and transposeWith) with the source: s := a.ShallowClone(); s.UT(); a.UT() puts one slice in the pool twice",
         "alias stored into another object", 33)
 
+# ---- engine T (lazy-transpose typestate) ------------------------------------------------------
+finding(["C03","C19","C20"], "T2", "tensor.reuseCheckShape#reuse",
+        "reuseCheckShape zeroes a reuse tensor's old AP and returns its transposeAxes() to the ints pool without clearing the field: the tensor keeps a recycled axes slice",
+        "old cleared, transposeWith kept", 12)
+
 # ---- engine L (layout predicates) ------------------------------------------------------------
 finding(["C12","C16","C07","C06","C11"], "L0", "tensor.prepDataUnary#useIter",
         "prepDataUnary has no data-order term: Neg(colA, WithIncr(rowZeros)) adds raw column-major data into a row-major buffer (non-incr reuse is compensated by handleFuncOpts giving reuse the operand's order)",
         "rows 12,20 of riA,riR,nnR,colA,colR", 41)
 
 FIXED = [
+ {"property":"C03","commit":"a93081a","rule":"T1","key":"tensor.(*Dense).Clone#new object","what":"fixed: property=C03 a93081a Dense.Clone copied old but not transposeWith: under -tags inplacetranspose a.T(2,0,1); c := a.Clone(); c.Transpose() gave [22 0 0 ...] (also C20; DESIGN finding 44)"},
  {"property":"C19","commit":"65180de","rule":"O2","key":"tensor.(*Dense).T(axes), tensor.(*Dense).SafeT(axes), tensor.T(axes), tensor.Transpose(axes), TensorMul(axesB), Contract(bAxes)","what":"fixed: property=C19 65180de Dense.T/SafeT kept the caller's axes slice in transposeWith; UT/Transpose then zeroed and pooled it (axes=[2,0,1] became [0,0,0]); also removes RollAxis' dangling pooled slice under inplacetranspose (DESIGN findings 8, 9)"},
  {"property":"C19","commit":"40cd994","rule":"O3","key":"tensor.Sum(along), tensor.(*Dense).Sum/Max/Min(along), tensor.(StdEng).Sum/Max/Min(along), tensor.(*Dense).Norm(axes)","what":"fixed: property=C19 40cd994 StdEng.reduce sorted the caller's along slice in place: Sum(t,2,0) left []int{2,0} as {0,2} (also C08; DESIGN finding 10)"},
  {"property":"C01","commit":"a1a5269","rule":"S1","key":"tensor.Ltoi#loop","what":"fixed: property=C01 a1a5269 Ltoi accepted negative coordinates: At(1,-1) on a (3,3) tensor returned element 2, At(-1,2) panicked (DESIGN finding 1)"},
